@@ -28,19 +28,30 @@ type LoopSpec struct {
 }
 
 type Contract struct {
-	Name     string
-	Props    []string
-	Requires []*Clause
-	Ensures  []*Clause
-	Lets     []*Clause // Label = name
-	Loops    map[int]*LoopSpec
-	Modifies []string
-	Inline   bool
-	Trusted  bool // contract assumed, body not verified (externals)
-	Thread   bool // body runs as its own goroutine
-	Flags    map[string]string
-	Line     int
-	File     string
+	Name         string
+	Props        []string
+	Requires     []*Clause
+	Ensures      []*Clause
+	Lets         []*Clause // Label = name
+	Loops        map[int]*LoopSpec
+	Modifies     []string
+	Inline       bool
+	Trusted      bool // contract assumed, body not verified (externals)
+	Thread       bool // body runs as its own goroutine
+	Flags        map[string]string
+	Guards       []GuardRule          // type blocks: field/call-out guard discipline
+	LockInvs     map[string][]*Clause // type blocks: mutex field -> invariant clauses over "self"
+	Interference bool                 // type blocks: guarded fields are havocked at Lock (other threads may have changed them)
+	Line         int
+	File         string
+}
+
+// GuardRule: accesses of Field (or call-outs of kind Field when CallOut) need the sibling mutex Lock.
+type GuardRule struct {
+	Field   string
+	Lock    string
+	CallOut bool
+	Props   []string
 }
 
 var labelRe = regexp.MustCompile(`^\[([A-Za-z0-9_.,\-]+)\]\s*`)
@@ -76,9 +87,12 @@ func parseContracts(path string) ([]*Contract, error) {
 		}
 		word, rest := splitWord(body)
 		switch word {
-		case "func", "iface", "callout":
+		case "func", "iface", "callout", "type":
 			cur = &Contract{Name: rest, Loops: map[int]*LoopSpec{}, Line: ln, File: path, Flags: map[string]string{}}
-			if word != "func" {
+			if word == "type" {
+				cur.Name = "type " + rest
+			}
+			if word == "iface" || word == "callout" {
 				cur.Trusted = true
 			}
 			out = append(out, cur)
@@ -109,6 +123,23 @@ func parseContracts(path string) ([]*Contract, error) {
 		case "thread":
 			cur.Thread = true
 			last = nil
+		case "guardedby", "calloutunder":
+			f := strings.Fields(rest)
+			if len(f) < 2 {
+				return nil, fmt.Errorf("%s:%d: %s needs <field> <mutex>", path, ln, word)
+			}
+			cur.Guards = append(cur.Guards, GuardRule{Field: f[0], Lock: f[1], CallOut: word == "calloutunder", Props: f[2:]})
+			last = nil
+		case "interference":
+			cur.Interference = true
+			last = nil
+		case "lockinv":
+			mf, r2 := splitWord(rest)
+			last = mk(r2)
+			if cur.LockInvs == nil {
+				cur.LockInvs = map[string][]*Clause{}
+			}
+			cur.LockInvs[mf] = append(cur.LockInvs[mf], last)
 		case "replay":
 			k, v := splitWord(rest)
 			cur.Flags["replay"] = k
@@ -178,6 +209,9 @@ func parseContracts(path string) ([]*Contract, error) {
 		all := append(append(append([]*Clause{}, c.Requires...), c.Ensures...), c.Lets...)
 		for _, l := range c.Loops {
 			all = append(all, l.Invariants...)
+		}
+		for _, ls := range c.LockInvs {
+			all = append(all, ls...)
 		}
 		for _, cl := range all {
 			ex, err := parseSpecExpr(cl.Text)
